@@ -289,4 +289,31 @@ pub fn run(r: &mut Runner) {
             }
         });
     }
+    {
+        let gs = crate::fx::generic_stream(if quick { 20000 } else { 2000000 }, 115, -1000, 959);
+        let ngs = gs.len();
+        r.notes.push(format!("generic stream for ln/log2/log10/ln_1p: {} operands of a fixed Weyl sequence (full-size mantissas in both words, exponents -1000..959)", ngs));
+        r.par("generic stream: ln/log2/log10/ln_1p", ngs.div_ceil(256), ngs as u64, |c, l| {
+            for i in (c * 256)..((c + 1) * 256).min(ngs) {
+                let x = [gs[i][0].abs(), if gs[i][0] < 0.0 { -gs[i][1] } else { gs[i][1] }];
+                for call in 0..4 {
+                    let v = judge1(call, x, Some(l));
+                    rec.record(l, (1u64 << 58) + (i * 4 + call) as u64, v);
+                }
+            }
+        });
+    }
+    {
+        let gs = crate::fx::generic_stream(if quick { 20000 } else { 2000000 }, 1150, -30, 3);
+        let ngs = gs.len();
+        r.notes.push(format!("generic stream for ln/ln_1p near the origin of their series: {} operands of a fixed Weyl sequence (full-size mantissas in both words, exponents -30..3)", ngs));
+        r.par("generic stream: ln/ln_1p near the origin of their series", ngs.div_ceil(256), ngs as u64, |c, l| {
+            for i in (c * 256)..((c + 1) * 256).min(ngs) {
+                for call in [0usize, 3] {
+                    let v = judge1(call, gs[i], Some(l));
+                    rec.record(l, (1u64 << 57) + (i * 4 + call) as u64, v);
+                }
+            }
+        });
+    }
 }
